@@ -3,6 +3,7 @@ import Driver.Proto
 import Driver.Loop
 import Driver.C01
 import Driver.C01N
+import Driver.C01D
 import Driver.C02
 import Driver.C03
 import Driver.C04
@@ -30,6 +31,7 @@ open Verif Verif.Driver
 def allHandlers : List (String × Handler) :=
   C01.handlers ++
   C01N.handlers ++
+  C01D.handlers ++
   C02.handlers ++
   C03.handlers ++
   C04.handlers ++
